@@ -80,9 +80,11 @@ where
                     lock.state = ReactiveNodeState::Check;
                 }
             }
-            for sub in
-                (&reactivity.read().or_poisoned().subscribers).into_iter()
-            {
+            // Do not hold the lock while notifying: a subscriber that reacts
+            // synchronously (an `ImmediateEffect`) reads this memo again, which
+            // takes the write lock.
+            let subs = reactivity.read().or_poisoned().subscribers.clone();
+            for sub in subs {
                 sub.mark_check();
             }
         }
@@ -90,8 +92,9 @@ where
     }
 
     fn mark_subscribers_check(&self) {
-        let lock = self.reactivity.read().or_poisoned();
-        for sub in (&lock.subscribers).into_iter() {
+        // Do not hold the lock while notifying (see `mark_check`).
+        let subs = self.reactivity.read().or_poisoned().subscribers.clone();
+        for sub in subs {
             sub.mark_check();
         }
     }
